@@ -177,7 +177,7 @@ func (g *G) plainStmt(sc *scope, depth int) []string {
 }
 
 func (g *G) tryPlain(sc *scope, depth int) []string {
-	k := g.pick("stmtkind", 24)
+	k := g.pick("stmtkind", 27)
 	switch k {
 	case 0, 1, 2:
 		return g.defineStmt(sc, depth)
@@ -228,6 +228,18 @@ func (g *G) tryPlain(sc *scope, depth int) []string {
 		return g.encodeStmt(sc)
 	case 22:
 		return g.multiAssign(sc, depth)
+	case 24:
+		return g.copyStmt(sc)
+	case 25:
+		if g.fn.pure {
+			return nil
+		}
+		return g.machineStmt(sc)
+	case 26:
+		if g.fn.pure {
+			return nil
+		}
+		return g.nestedFieldStore(sc, depth)
 	case 23:
 		if !g.cfg.NoBareBlocks && depth > 0 {
 			g.label("bare-block")
@@ -827,4 +839,97 @@ func (g *G) encodeStmt(sc *scope) []string {
 	}
 	g.label("uint32put")
 	return []string{fmt.Sprintf("machine.UInt32Put(%s, %s)", use(b), g.expr(sc, TU32, 1))}
+}
+
+// copyStmt: n := copy(dst, src) into a local fresh slice (no overlap: dst is a
+// var-declared slice, which is always initialised fresh and never aliased).
+func (g *G) copyStmt(sc *scope) []string {
+	dsts := g.mutableVars(sc, func(v *Var) bool { return v.T.K == KSlice && v.T.Elem.Scalar() })
+	if len(dsts) == 0 || g.fn.pure {
+		return nil
+	}
+	d := dsts[g.pick("copydst", len(dsts))]
+	srcs := g.varsOf(sc, func(v *Var) bool { return v != d && v.T.Same(d.T) && !v.Mutable })
+	if len(srcs) == 0 {
+		return nil
+	}
+	src := srcs[g.pick("copysrc", len(srcs))]
+	g.label("copy")
+	name := g.freshName(sc, "copyn")
+	// copy returns an int: observe it through a conversion
+	g.declare(sc, &Var{Name: name, T: TU64})
+	return []string{fmt.Sprintf("%s := uint64(copy(%s, %s))", name, use(d), use(src))}
+}
+
+// machineStmt: MapClear, Assume(true-by-construction), Assert(true-by-construction), Linearize.
+func (g *G) machineStmt(sc *scope) []string {
+	if g.cfg.NoMachine {
+		return nil
+	}
+	imp := func() { g.prog.Imports["github.com/goose-lang/goose/machine"] = true }
+	switch g.pick("machinekind", 4) {
+	case 0:
+		ms := g.varsOf(sc, func(v *Var) bool { return v.T.K == KMap && v.NonNil })
+		if len(ms) == 0 {
+			return nil
+		}
+		g.label("map-clear")
+		imp()
+		return []string{"machine.MapClear(" + use(ms[g.pick("clearmap", len(ms))]) + ")"}
+	case 1:
+		x := g.nonConst(sc, TU64, 0)
+		if x == "" {
+			return nil
+		}
+		g.label("assume")
+		imp()
+		return []string{fmt.Sprintf("machine.Assume(%s == %s)", x, x)}
+	case 2:
+		x := g.nonConst(sc, TU64, 0)
+		if x == "" {
+			return nil
+		}
+		g.label("assert")
+		imp()
+		return []string{fmt.Sprintf("machine.Assert((%s | 1) != 0)", paren(x))}
+	default:
+		g.label("linearize")
+		imp()
+		return []string{"machine.Linearize()"}
+	}
+}
+
+// nestedFieldStore: x.f.g = v through a var-declared struct or a pointer whose field is a struct value.
+func (g *G) nestedFieldStore(sc *scope, depth int) []string {
+	type alt func() []string
+	var alts []alt
+	for _, v := range g.varsOf(sc, func(v *Var) bool {
+		return v.Closure == nil && ((v.T.K == KStruct && v.Mutable) || (v.T.K == KPtr && v.T.Elem.K == KStruct && v.NonNil))
+	}) {
+		v := v
+		sd := v.T.S
+		if v.T.K == KPtr {
+			sd = v.T.Elem.S
+		}
+		for _, f := range sd.Fields {
+			f := f
+			if f.T.K != KStruct {
+				continue
+			}
+			for _, f2 := range f.T.S.Fields {
+				f2 := f2
+				if !f2.T.Scalar() {
+					continue
+				}
+				alts = append(alts, func() []string {
+					g.label("nested-field-store")
+					return []string{fmt.Sprintf("%s.%s.%s = %s", use(v), f.Name, f2.Name, g.expr(sc, f2.T, min(depth, 2)))}
+				})
+			}
+		}
+	}
+	if len(alts) == 0 {
+		return nil
+	}
+	return alts[g.pick("nestedalt", len(alts))]()
 }
